@@ -86,6 +86,11 @@ class Body:
         self.impl_of = b.get('impl_of')
         self.default_of = b.get('default_of')
 
+    def raw_text(self):
+        if not hasattr(self, '_raw_text'):
+            self._raw_text = json.dumps(self.raw['blocks'], separators=(',', ':'))
+        return self._raw_text
+
     @property
     def file(self):
         return self.span['file'] if self.span else '?'
